@@ -92,7 +92,17 @@ def opConfigResolve (inp imp : Json) : Except String Json := do
                          visualizeDeps := getBoolD fl "visualize" false, force := getBoolD fl "force" false }
   let doc : Option J := (getOpt inp "doc").map jOfJson
   let existing ← getStrList inp "existing"
-  let r := resolve (fun p => existing.contains p) flags doc
+  -- `places`: what the three places the tool looks in hold, in its order (null: absent, "unreadable", or a document);
+  -- without it the single `doc` is the discovered document
+  let places : Option (List Place) := match inp.getObjVal? "places" with
+    | .ok (Json.arr a) => some (a.toList.map fun x => match x with
+        | Json.null => Place.absent
+        | Json.str _ => Place.unreadable
+        | d => Place.doc (jOfJson d))
+    | _ => none
+  let r := match places with
+    | some ps => resolveDiscovered (fun p => existing.contains p) flags ps
+    | none => resolve (fun p => existing.contains p) flags doc
   let model : Json := match r with
     | .ok s => obj [("ok", obj [("projectPath", jS s.projectPath), ("outputPath", jS s.outputPath),
         ("validationLibrary", jS s.validationLibrary), ("verbose", jb s.verbose), ("force", jb s.force)])]
